@@ -2,6 +2,7 @@ package main
 
 import (
 	"fmt"
+	"sort"
 	"go/ast"
 	"go/token"
 	"go/types"
@@ -39,6 +40,11 @@ func (c *Ctx) havocResults(st *State, call *ast.CallExpr, prefix string) []Val {
 }
 
 func (c *Ctx) evalCallMode(st *State, call *ast.CallExpr, spawn bool) []Val {
+	if c.prefix == "" && c.unit.Contract != nil && len(c.unit.Contract.Points) > 0 {
+		if n, ok := c.callOrd[call]; ok {
+			c.pointClauses(st, fmt.Sprintf("before call %s#%d", types.ExprString(call.Fun), n), call.Pos())
+		}
+	}
 	// conversion
 	if tv, ok := c.info.Types[call.Fun]; ok && tv.IsType() {
 		return []Val{c.evalConversion(st, call, tv.Type)}
@@ -719,6 +725,29 @@ func (c *Ctx) modularCall(st *State, call *ast.CallExpr, fn *types.Func, ct *Fun
 
 // applyModifies havocs one modifies item.
 func (c *Ctx) applyModifies(st *State, env *SpecEnv, item string, fn *types.Func) error {
+	cond := ""
+	if strings.HasPrefix(item, "when ") {
+		i := strings.Index(item, ":")
+		if i < 0 {
+			return fmt.Errorf("conditional modifies needs 'when cond : item'")
+		}
+		ce, err := parseSpecExpr(item[5:i])
+		if err != nil {
+			return err
+		}
+		t, err := env.trBool(ce)
+		if err != nil {
+			return err
+		}
+		cond = t
+		item = strings.TrimSpace(item[i+1:])
+		if cond == "false" {
+			return nil
+		}
+		if cond == "true" {
+			cond = ""
+		}
+	}
 	keys, loc, err := c.resolveMod(env, item, fn)
 	if err != nil {
 		return err
@@ -728,18 +757,24 @@ func (c *Ctx) applyModifies(st *State, env *SpecEnv, item string, fn *types.Func
 		return nil
 	}
 	for _, k := range keys {
-		if loc == "" {
-			c.heapHavocKey(st, k)
-			continue
-		}
 		as, ok := heapSorts[k]
-		if !ok {
+		if loc == "" || !ok {
+			if cond != "" && ok {
+				cur := c.heapRead(st, k, as)
+				fr := c.fresh("H!"+mangle(k), as)
+				c.heapSet(st, k, as, "(ite "+cond+" "+fr+" "+cur+")")
+				continue
+			}
 			c.heapHavocKey(st, k)
 			continue
 		}
 		_, vs := splitArraySort(as)
 		cur := c.heapRead(st, k, as)
 		fr := c.fresh("mod", vs)
+		if cond != "" {
+			c.heapSet(st, k, as, "(ite "+cond+" "+store(cur, loc, fr)+" "+cur+")")
+			continue
+		}
 		c.heapSet(st, k, as, store(cur, loc, fr))
 	}
 	return nil
@@ -749,6 +784,11 @@ func (c *Ctx) applyModifies(st *State, env *SpecEnv, item string, fn *types.Func
 // optional single location (SMT term) within those keys.
 func (c *Ctx) resolveMod(env *SpecEnv, item string, fn *types.Func) (keys []string, loc string, err error) {
 	item = strings.TrimSpace(item)
+	if strings.HasPrefix(item, "when ") {
+		if i := strings.Index(item, ":"); i >= 0 {
+			item = strings.TrimSpace(item[i+1:])
+		}
+	}
 	if item == "*" {
 		return nil, "", nil
 	}
@@ -767,6 +807,11 @@ func (c *Ctx) resolveMod(env *SpecEnv, item string, fn *types.Func) (keys []stri
 	}()
 	switch e.Op {
 	case "str":
+		if _, ok := heapSorts[e.S]; !ok {
+			if as := c.sortOfKey(e.S); as != "" {
+				heapSorts[e.S] = as
+			}
+		}
 		return []string{e.S}, "", nil
 	case "ident":
 		if _, ok := c.eng.cs.Ghosts[e.S]; ok {
@@ -781,6 +826,22 @@ func (c *Ctx) resolveMod(env *SpecEnv, item string, fn *types.Func) (keys []stri
 				return []string{k}, "", nil
 			}
 			v := env.tr(e.Args[1])
+			return []string{k}, v.T, nil
+		}
+		if name == "cell" && len(e.Args) == 3 && e.Args[2].Op == "str" {
+			so, err := c.parseSort(e.Args[2].S)
+			if err != nil {
+				return nil, "", err
+			}
+			k := "C:" + so
+			heapSorts[k] = arraySort("Int", so)
+			if env == nil {
+				return []string{k}, "", nil
+			}
+			v := env.tr(e.Args[1])
+			if v.S == "Iface" {
+				return []string{k}, "(iref " + v.T + ")", nil
+			}
 			return []string{k}, v.T, nil
 		}
 		if name == "mapof" && len(e.Args) == 2 {
@@ -818,14 +879,20 @@ func (c *Ctx) resolveMod(env *SpecEnv, item string, fn *types.Func) (keys []stri
 			}
 		}
 		if env != nil {
-			base := env.tr(e.Args[0])
-			if base.GT != nil {
-				k, as, err := c.fieldKeyOf(base.GT, e.S)
-				if err != nil {
-					return nil, "", err
+			cur, t := env.selCursor(e.Args[0])
+			if t != nil {
+				cur2, f := env.walkSel(cur, t, e.S, e)
+				if cur2.isRef {
+					ms := newModSet()
+					c.addFieldKeys(ms, cur2.owner, cur2.prefix, f)
+					var ks []string
+					for k, as := range ms.keys {
+						heapSorts[k] = as
+						ks = append(ks, k)
+					}
+					sort.Strings(ks)
+					return ks, cur2.ref, nil
 				}
-				heapSorts[k] = as
-				return []string{k}, base.T, nil
 			}
 		}
 	}
@@ -1048,4 +1115,54 @@ func (c *Ctx) hasLocalDevirt(call *ast.CallExpr, fn *types.Func) bool {
 		}
 	}
 	return false
+}
+
+// sortOfKey derives the array sort of a raw heap key ("F:pkg.Type.field", "C:<sort>", "G:<ghost>").
+func (c *Ctx) sortOfKey(key string) Sort {
+	switch {
+	case strings.HasPrefix(key, "C:"):
+		so := key[2:]
+		c.ensureSort(so)
+		return arraySort("Int", so)
+	case strings.HasPrefix(key, "G:"):
+		if _, ok := c.eng.cs.Ghosts[key[2:]]; ok {
+			_, as := c.ghostKey(key[2:])
+			return as
+		}
+	case strings.HasPrefix(key, "F:"):
+		rest := key[2:]
+		i := strings.Index(rest, ".")
+		if i < 0 {
+			return ""
+		}
+		j := strings.Index(rest[i+1:], ".")
+		if j < 0 {
+			return ""
+		}
+		tn, field := rest[:i+1+j], rest[i+1+j+1:]
+		t := c.eng.lookupNamed(tn)
+		if t == nil {
+			return ""
+		}
+		parts := strings.Split(field, ".")
+		cur := t
+		for _, p := range parts {
+			stt, ok := cur.Underlying().(*types.Struct)
+			if !ok {
+				return ""
+			}
+			found := false
+			for k := 0; k < stt.NumFields(); k++ {
+				if stt.Field(k).Name() == p {
+					cur = stt.Field(k).Type()
+					found = true
+				}
+			}
+			if !found {
+				return ""
+			}
+		}
+		return arraySort("Int", c.sortOf(cur))
+	}
+	return ""
 }
